@@ -99,7 +99,7 @@ var profiles = map[string]map[string]int{
 	"C02": {"ins": 30, "del": 14, "get": 2, "clone": 8, "cursor": 4, "fork": 8, "persist": 8, "reload": 8, "restart": 1, "newtree": 1},
 	"C03": {"ins": 30, "del": 8, "persist": 14, "reload": 2, "fork": 2, "restart": 1, "bulk": 3, "newtree": 2},
 	"C04": {"ins": 30, "del": 20, "persist": 8, "canon": 8, "reload": 3, "fork": 1, "restart": 1},
-	"C05": {"ins": 30, "del": 12, "persist": 10, "reload": 10, "restart": 3, "get": 3, "iter": 2, "fork": 1},
+	"C05": {"ins": 30, "del": 12, "persist": 10, "reload": 10, "restart": 3, "get": 3, "iter": 2, "fork": 1, "newtree": 2},
 	"C06": {"ins": 30, "del": 14, "clone": 6, "fork": 4, "persist": 5, "reload": 3, "diff": 16, "newtree": 3, "restart": 1},
 	"C07": {"ins": 30, "del": 14, "persist": 10, "reload": 4, "fork": 3, "difflinks": 14, "newtree": 2, "restart": 1},
 	"C08": {"ins": 30, "del": 14, "persist": 12, "reload": 5, "fork": 3, "restart": 1, "clone": 1, "canon": 2},
@@ -180,6 +180,13 @@ func GenConfig(prop string, g *Gen, tier string) Config {
 			c.Layers = genLayers(g, c.U)
 		}
 	case "C05":
+		if g.Intn(4) == 0 {
+			// two stores sharing one cache: the same contents persisted to both must load from each
+			c.Disks = 2
+			if c.Cache == "none" {
+				c.Cache = "arc-big"
+			}
+		}
 		if g.Intn(40) == 0 {
 			// the documented "registered types" configuration with the default compact format
 			// (as in the repository's TestCustomMarshal): a known finding, kept at a low rate
@@ -373,11 +380,24 @@ func (s *genState) emit(kind, prop string) {
 		if cur, ok := t.model[k]; ok && g.Intn(6) == 0 {
 			v = cur // same-value insert (no-op)
 		}
-		s.ops = append(s.ops, Op{K: "ins", T: ti, Key: k, Val: v})
+		iop := Op{K: "ins", T: ti, Key: k, Val: v}
+		if (prop == "C09") && t.hasRoot && g.Intn(10) == 0 {
+			iop.F, iop.N = "loadfault", 1+g.Intn(4)
+		}
+		s.ops = append(s.ops, iop)
 		t.model[k] = v
 		t.dirty = true
 	case "del":
 		k := s.anyKey(t, 80)
+		if len(t.model) > 0 && g.Intn(6) == 0 {
+			// the present key of the highest layer (the root's last key: shrink through a key-less root)
+			best := -1
+			for kk := range t.model {
+				if l := s.layerOf(kk); l > best || (l == best && kk < k) {
+					best, k = l, kk
+				}
+			}
+		}
 		cur, ok := t.model[k]
 		v := cur
 		if !ok {
@@ -385,7 +405,11 @@ func (s *genState) emit(kind, prop string) {
 		} else if g.Intn(8) == 0 {
 			v = cur + 1 + g.Intn(3) // wrong value
 		}
-		s.ops = append(s.ops, Op{K: "del", T: ti, Key: k, Val: v})
+		dop := Op{K: "del", T: ti, Key: k, Val: v}
+		if (prop == "C09") && t.hasRoot && g.Intn(8) == 0 {
+			dop.F, dop.N = "loadfault", 1+g.Intn(4)
+		}
+		s.ops = append(s.ops, dop)
 		if ok && v == cur {
 			delete(t.model, k)
 			t.dirty = true
